@@ -193,6 +193,14 @@ def _history(ctx, pool, cplx, pnames, qname, target_sel):
             if not last:
                 return False
             pp['x'] = last[0]          # P2 consumes the result of P1 in the role of x
+            # binary operations need an operand of x's shape with boundary ranks 1 (an admissible call); anything else is argument misuse
+            r, x0 = last[0], p['x']
+            same = (r.order == x0.order and list(r.row_dims) == list(x0.row_dims) and list(r.col_dims) == list(x0.col_dims)
+                    and r.ranks[0] == 1 and r.ranks[-1] == 1)
+            import re as _re
+            binary = bool(_re.search(r'\by\b|\bA\b|\(M,', pn))
+            if binary and not same:
+                return False
         ok, res = _applicable(pure[pn], pp)
         if not ok:
             return False
